@@ -55,6 +55,32 @@ func verifyFns(P *Program, S *Specs, E *Effects, fns []*ssa.Function, o RunOpts)
 		}(i, fn)
 	}
 	wg.Wait()
+	// Second chance for obligations no solver decided (timeout / unknown, never "sat"): one at a
+	// time, with nothing else running and twice the timeout, within a total budget. A machine that
+	// is busy with other work must not turn a slow proof into an alarm; a genuinely failing
+	// quantified obligation merely costs this extra time before it is reported.
+	budget := time.Duration(4*o.TimeoutMs) * time.Millisecond
+	if budget < 60*time.Second {
+		budget = 60 * time.Second
+	}
+	t0 := time.Now()
+	for _, r := range results {
+		if r == nil {
+			continue
+		}
+		for _, ob := range r.Obligations {
+			if ob.Status == "unsat" || ob.Status == "sat" || ob.gen == nil || !ob.Strong {
+				continue
+			}
+			if time.Since(t0) > budget {
+				break
+			}
+			ob.gen.raceOne(ob, o.WorkDir, 2*o.TimeoutMs, o.Keep)
+			if ob.Status == "unsat" {
+				ob.Solver += " (second attempt, alone)"
+			}
+		}
+	}
 	return results
 }
 
